@@ -8,9 +8,11 @@ import (
 	"net/http"
 	"net/http/httptest"
 	"net/url"
+	"runtime"
 	"sort"
 	"strings"
 	"sync"
+	"sync/atomic"
 	"testing"
 	"time"
 
@@ -657,5 +659,116 @@ func TestC10_AdminOverlap(t *testing.T) {
 			w.upsert(s.url.String(), s.conf)
 		}
 		vstat.Case("overlap|"+strings.Join(w.log, ";"), adjustedOverlaps > 0, []string{"admin-overlapped-by-request"}, map[string]any{"backoff": w.backoff.String(), "steps": w.log})
+	})
+}
+
+// yieldLogger is the rebalancer's (public) Logger: while armed, every goroutine that logs
+// yields the processor a bounded number of times, which widens any window between two
+// critical sections of the rebalancer without ever waiting for wall-clock time.
+type yieldLogger struct{ armed atomic.Bool }
+
+func (l *yieldLogger) pause() {
+	if l.armed.Load() {
+		for i := 0; i < 20; i++ {
+			runtime.Gosched()
+		}
+	}
+}
+func (l *yieldLogger) Debug(string, ...interface{}) { l.pause() }
+func (l *yieldLogger) Info(string, ...interface{})  { l.pause() }
+func (l *yieldLogger) Warn(string, ...interface{})  { l.pause() }
+func (l *yieldLogger) Error(string, ...interface{}) { l.pause() }
+
+// TestC10_ConcurrentRequests: several requests complete on real goroutines at ONE frozen
+// instant. Weights change at most once per back-off interval, so whatever the interleaving the
+// pool ends up exactly where a twin ends up that serves the same requests one after another.
+func TestC10_ConcurrentRequests(t *testing.T) {
+	rapid.Check(t, func(t *rapid.T) {
+		backoff := rapid.SampledFrom([]time.Duration{time.Second, 10 * time.Second}).Draw(t, "backoff")
+		clock.Freeze(epoch)
+		defer clock.Unfreeze()
+		n := rapid.IntRange(2, 5).Draw(t, "nservers")
+		confs := make([]int, n)
+		bad := make([]bool, n)
+		for i := range confs {
+			confs[i] = rapid.SampledFrom(confWeights[:10]).Draw(t, "conf")
+			bad[i] = i < rapid.IntRange(0, n-1).Draw(t, "nbadDraw")
+		}
+		lg := &yieldLogger{}
+		build := func() (*roundrobin.RoundRobin, *roundrobin.Rebalancer, []*meter) {
+			rr, err := roundrobin.New(http.HandlerFunc(func(w http.ResponseWriter, r *http.Request) {}))
+			if err != nil {
+				t.Fatalf("%v", err)
+			}
+			var ms []*meter
+			var pending *meter
+			rb, err := roundrobin.NewRebalancer(rr, roundrobin.RebalancerBackoff(backoff), roundrobin.RebalancerLogger(lg), roundrobin.RebalancerDebug(rapid.Bool().Draw(t, "debug")),
+				roundrobin.RebalancerMeter(func() (roundrobin.Meter, error) { return pending, nil }))
+			if err != nil {
+				t.Fatalf("%v", err)
+			}
+			for i := 0; i < n; i++ {
+				pending = &meter{ready: true}
+				if bad[i] {
+					pending.rating = 0.9
+				}
+				ms = append(ms, pending)
+				u, _ := url.Parse(names[i])
+				if err := rb.UpsertServer(u, roundrobin.Weight(confs[i])); err != nil {
+					t.Fatalf("%v", err)
+				}
+			}
+			return rr, rb, ms
+		}
+		weights := func(rr *roundrobin.RoundRobin) []int {
+			out := make([]int, n)
+			for i := range out {
+				u, _ := url.Parse(names[i])
+				out[i], _ = rr.ServerWeight(u)
+			}
+			return out
+		}
+		rrA, rbA, msA := build()
+		rrB, rbB, msB := build()
+		var log []string
+		rounds := rapid.IntRange(1, 6).Draw(t, "rounds")
+		differed := false
+		for r := 0; r < rounds; r++ {
+			if rapid.IntRange(0, 3).Draw(t, "flip") == 0 {
+				i := rapid.IntRange(0, n-1).Draw(t, "flipWho")
+				v := 0.9 - msA[i].rating
+				msA[i].rating, msB[i].rating = v, v
+			}
+			clock.Advance(step(int64(backoff/time.Millisecond) + 1))
+			G := rapid.IntRange(2, 12).Draw(t, "burst")
+			before := weights(rrA)
+			lg.armed.Store(true)
+			var wg sync.WaitGroup
+			var ready atomic.Int64
+			for g := 0; g < G; g++ {
+				wg.Add(1)
+				go func() {
+					defer wg.Done()
+					ready.Add(1)
+					for ready.Load() < int64(G) {
+					}
+					rbA.ServeHTTP(httptest.NewRecorder(), httptest.NewRequest("GET", "http://front/", nil))
+				}()
+			}
+			wg.Wait()
+			lg.armed.Store(false)
+			for g := 0; g < G; g++ {
+				rbB.ServeHTTP(httptest.NewRecorder(), httptest.NewRequest("GET", "http://front/", nil))
+			}
+			a, b := weights(rrA), weights(rrB)
+			log = append(log, fmt.Sprintf("round %d: %d simultaneous requests: %v -> %v (one after another: %v)", r, G, before, a, b))
+			if fmt.Sprint(a) != fmt.Sprint(before) {
+				differed = true
+			}
+			if fmt.Sprint(a) != fmt.Sprint(b) {
+				t.Fatalf("%d requests completed at the same instant (back-off %v): weights %v -> %v; served one after another they become %v (at most one adjustment per back-off interval)\nconfigured %v, failing %v\n%s", G, backoff, before, a, b, confs, bad, strings.Join(log, "\n"))
+			}
+		}
+		vstat.Case(fmt.Sprintf("conc|%v|%v|%v|%s", backoff, confs, bad, strings.Join(log, ";")), differed, []string{"simultaneous-completions"}, map[string]any{"backoff": backoff.String(), "configured": confs, "rounds": log})
 	})
 }
